@@ -6,8 +6,9 @@ middleware -> the unary resource -> the method body), plus real ``RpcServer.serv
 transports whose *type* decides the kind (``PipeTransport`` -> PIPE, ``ShmPipeTransport`` -> PIPE+{"shm"},
 a ``UnixTransport`` subclass backed by memory -> UNIX).  ``server._transport_lock`` is replaced by the
 cooperative lock; every source line of ``_notify_transport`` and of the middleware's ``process_request`` is a
-scheduling point, as are the hook body, the method body and every transport write.  A change that drops or
-narrows the lock, commits before the hook, or swallows the hook's exception is therefore still explored.
+scheduling point, as are the hook body and the method body.  A change that drops or narrows the lock, commits
+before the hook, or swallows the hook's exception is therefore still explored.  The server, its implementation
+and the falcon app are built once per configuration; every execution starts unbound with a fresh lock.
 
 Oracle (weakest reading of the statement; a "binding" is a recorded ``(transport_kind, capabilities)`` value):
 
@@ -45,11 +46,11 @@ LEVEL = "model_checking"
 ENGINE = "E3-SCHED"
 SHARDS = {"quick": 8, "thorough": 16}
 RULE = (
-    "all schedules (preemption bound 2; thorough also bound 3 for two-task configs) of 2-3 tasks, each issuing 1-2 "
-    "first requests from {H: HTTP request through the real falcon app, P: serve() on a PipeTransport, M: serve() on a "
+    "all schedules (preemption bound 2 for two tasks, quick: 1 / thorough: 2 for three tasks, thorough also bound 3 "
+    "for five two-task configs) of 2-3 tasks, each issuing 1-3 first requests from {H: HTTP request through the real falcon app, P: serve() on a PipeTransport, M: serve() on a "
     "ShmPipeTransport, U: serve() on a UnixTransport}, hook in {ok, raises on 1st call, raises on 1st+2nd, raises "
-    "always}; line-level points in _notify_transport and the middleware, points in hook/method bodies and at transport "
-    "writes; non-trivial = schedule with >=1 choice point"
+    "always}; line-level points in _notify_transport and the middleware, points in hook/method bodies; non-trivial = "
+    "schedule with >=1 choice point"
 )
 TECHNIQUE = (
     "stateless model checking of the real _notify_transport/_TransportNotifyMiddleware under a controlled thread "
@@ -57,14 +58,14 @@ TECHNIQUE = (
     "specification of the binding"
 )
 LEVEL_TEXT = (
-    "Every schedule with <=2 (and <=3 for the two-task configurations in the thorough tier) preemptions of 2-3 real "
+    "Every schedule with <=2 preemptions (quick: <=1 for three tasks; thorough: <=3 for five two-task configurations) of 2-3 real "
     "threads issuing concurrent first requests (HTTP through the complete falcon app, serve() on pipe / shm-pipe / "
     "unix transports) against one real RpcServer is executed and judged; the property quantifies over interleavings, "
     "which a free-running test samples once."
 )
 LEVEL_NOTE = (
     "Granularity is one source line inside _notify_transport and the middleware's process_request plus the lock, "
-    "hook, method-body and transport-write points; bytecode inside a line is not split. Task count 2-3, 1-2 requests "
+    "hook and method-body points; bytecode inside a line is not split. Task count 2-3, 1-3 requests "
     "per task, four hook behaviours and the four binding values {HTTP, PIPE, PIPE+shm, UNIX} are the stated bounds. "
     "The server under test is an RpcServer subclass that only logs entry/exit of _notify_transport."
 )
